@@ -14,7 +14,7 @@ RULE = ("generated Solutions: every trajectory kind (PM, ST, KS, KST, MB, Input,
 ANCHORS = ["CommonRoadSolutionWriter.dump", "CommonRoadSolutionWriter._create_sub_element",
            "CommonRoadSolutionReader._parse_state", "CommonRoadSolutionReader._parse_trajectory"]
 REQUIRED = ["kind.PM", "kind.ST", "kind.KS", "kind.KST", "kind.MB", "kind.Input", "kind.PMInput", "xsd.validated",
-            "cooperative", "non-ascending-input", "meta.date.none", "meta.date.micro", "meta.date.cleared", "meta.date.midnight", "trajectory-reassigned-with-other-kind", "meta.processor_name",
+            "cooperative", "non-ascending-input", "meta.date.none", "meta.date.micro", "meta.date.cleared", "meta.date.midnight", "cost-and-vehicle-type-changed-after-id-was-read", "trajectory-reassigned-with-other-kind", "meta.processor_name",
             "meta.computation_time", "pretty", "not-pretty", "file-route", "pp-id-reassigned-after-construction"]
 ASSUMPTIONS = ["state values are finite python floats / ints (ints up to 10^6 so that float() is exact)",
                "XSD validation only for documents whose trajectory types the schema defines, generated in schema order"]
@@ -70,6 +70,21 @@ def run(ctx):
                 ps.planning_problem_id = nid
                 p["pp_id"] = nid
             ctx.feature("pp-id-reassigned-after-construction")
+        if i % 5 == 2:
+            # the solution has been LOOKED at (its benchmark id was asked for, e.g. for a file name); afterwards cost function
+            # and vehicle type of a planning-problem solution are changed through their public attributes (the same
+            # trajectory submitted for another cost function): what is written is what the solution is NOW
+            from commonroad.common.solution import SupportedCostFunctions, VehicleType
+            _ = sol.benchmark_id
+            ps0, p0 = sol.planning_problem_solutions[0], spec["pps"][0]
+            others = [c_ for c_ in SupportedCostFunctions[p0["model"]].value if c_.name != p0["cost"]]
+            if others:
+                ps0.cost_function = others[i % len(others)]
+                p0["cost"] = ps0.cost_function.name
+            vt = [v_ for v_ in VehicleType if v_.name != p0["vtype"]][i % (len(VehicleType) - 1)]
+            ps0.vehicle_type = vt
+            p0["vtype"] = vt.name
+            ctx.feature("cost-and-vehicle-type-changed-after-id-was-read")
         ctx.evaluation()
         if any("trajectory_reassigned_from" in p_ for p_ in spec["pps"]):
             ctx.feature("trajectory-reassigned-with-other-kind")
